@@ -422,6 +422,12 @@ func recoverEngine(logger log.Logger, expr parser.Expr, errp *error) {
 
 		level.Error(logger).Log("msg", "runtime panic in engine", "expr", expr.String(), "err", e, "stacktrace", string(buf))
 		*errp = errors.Wrap(err, "unexpected error")
+	case error:
+		// Any other panic (e.g. one raised with an error value by an operator or by the
+		// storage) must fail the query too, as in the Prometheus engine.
+		*errp = err
+	default:
+		*errp = errors.Newf("%v", e)
 	}
 }
 
